@@ -219,11 +219,11 @@ ResUpd(M, a, k, res, iv, miv, now, dur) ==
                                          ELSE IF res = "ok" THEN @[j] ELSE Min2(@[j] + 1, 9)],
                     !.nfail = nf, !.due = d ]]
 
-\* @obligation C15.ev.stopped  "stopped" only to trackers that accepted an earlier announce (and only after a stop)
+\* @obligation C15.ev.stopped  "stopped" only to trackers that accepted an earlier announce
+\* (a late "stopped" may arrive after the next start: when it arrives is not part of the property)
 StoppedViol(M, a, k, t, e) ==
     LET m == M[a]  s == mt[t] IN
          <<IdViol(t, e),
-            IF m.run THEN "C15.ev.stopped.running" ELSE "",
             IF ~m.acc[k] THEN (IF \E j \in Ks(a) : m.acc[j] THEN "C15.ev.stopped.member" ELSE "C15.ev.stopped.unaccepted") ELSE "",
             IF s.exp /\ (e.up # s.eup \/ e.down # s.edown \/ e.left # s.eleft) THEN "C15.cnt.stats" ELSE "",
             IF e.left < 0 \/ e.left > cfg.tor[t].left0 \/ (s.cdone /\ e.left # 0) THEN "C15.cnt.leftdone" ELSE "">>
